@@ -431,8 +431,21 @@ func TestC20CLI(t *testing.T) {
 		if withTimeout {
 			args = append(args, "-timeout", "30s")
 		}
+		// the driver takes any number of script files: each is reported by
+		// itself, in order, and what an earlier one did (variables, functions,
+		// failures) is nothing to the next
+		first := ""
+		if gen.Uniform(rt, "twofiles", 4) == 0 {
+			firsts := []string{"return 1;", script, "g0 = 99; a = 98; b = 97; function f0(a) { return 77; } function f1() { return 78; } return \"first\";",
+				"return 1 +;", "return 1 / 0;", "function f(n) { return f(n + 1); } return f(0);", "DEBUG = true; OPTIMIZE = false; return 2;", "panic(\"first\");"}
+			first = firsts[gen.Uniform(rt, "firstfile", len(firsts))]
+			ff := filepath.Join(dir, "first.in")
+			_ = os.WriteFile(ff, []byte(first), 0o644)
+			args = append(args, ff)
+			col.Class("cli-two-script-files")
+		}
 		args = append(args, sf)
-		payload := map[string]interface{}{"prop": "C20", "kind": "cli", "script": script, "json": string(jb), "args": strings.Join(args[:len(args)-1], " ")}
+		payload := map[string]interface{}{"prop": "C20", "kind": "cli", "script": script, "json": string(jb), "args": strings.Join(args[:len(args)-1], " "), "first_script": first}
 		o := runCLI(bin, 20*time.Second, args...)
 		if why := cliCrashed(o); why != "" {
 			violation(rt, "C20", payload, "evalfilter %s: %s\n%s", strings.Join(args, " "), why, clip(o.out, 800))
@@ -455,7 +468,25 @@ func TestC20CLI(t *testing.T) {
 				want = fmt.Sprintf("Script gave result type:%s value:%s - which is '%t'.\n", res.Val.Type(), res.Val.Inspect(), res.Val.Truth())
 			}
 		}
-		if !strings.Contains(o.out, want) {
+		report := o.out
+		if first != "" {
+			// the report of the first file comes first; then the one under test
+			fr := eng.NewRunner(first)
+			fwant := "Error compiling:"
+			if perr1, _ := fr.Prepare(noOpt); perr1 == nil {
+				if r1 := fr.Execute(obj); r1.Err != nil {
+					fwant = "Failed to run script:"
+				} else {
+					fwant = fmt.Sprintf("Script gave result type:%s value:%s - which is '%t'.\n", r1.Val.Type(), r1.Val.Inspect(), r1.Val.Truth())
+				}
+			}
+			i := strings.Index(report, fwant)
+			if i < 0 {
+				violation(rt, "C20", payload, "evalfilter %s printed\n%s\nbut Execute gives %q for the first file", strings.Join(args[:len(args)-2], " "), clip(o.out, 800), clip(fwant, 400))
+			}
+			report = report[i+len(fwant):]
+		}
+		if !strings.Contains(report, want) {
 			violation(rt, "C20", payload, "evalfilter %s printed\n%s\nbut Execute gives %q", strings.Join(args[:len(args)-1], " "), clip(o.out, 800), clip(want, 400))
 		}
 		col.Class("cli-run")
